@@ -27,7 +27,7 @@ def terms_of(P, fn):
 def run(chk, tier):
     P = Prog("serde")
     chk.configs.add("serde")
-    for r in (r_helpers, r_errors, r_strings, r_timedelta, r_noreach, r_absint):
+    for r in (r_helpers, r_errors, r_strings, r_timedelta, r_timedelta_pair, r_noreach, r_absint):
         chk.guarded(r, P, tier)
     chk.assume("the round trip through concrete data formats (serde_json, bincode) is not decided; serde's own code is outside the analysed crate")
     return {
@@ -184,6 +184,31 @@ def r_timedelta(chk, P, tier):
     cs = callees(P, fn[0])
     others = {c for c in cs if c.startswith("time_delta::TimeDelta::") and not c.endswith("::new")}
     chk.expect("time_delta::TimeDelta::new" in cs and not others, fn[0], "TimeDelta::deserialize builds its value through %s (expected TimeDelta::new only)" % sorted(c.split("::")[-1] for c in cs if "TimeDelta" in c), loc=P.loc(fn[0]))
+
+
+def r_timedelta_pair(chk, P, tier):
+    """Deserialize rebuilds with TimeDelta::new(secs, nanos) - the raw representation (nanos always >= 0). Serialize must write that same pair: the two
+    private fields, not the sign-aware views num_seconds()/subsec_nanos()"""
+    chk.rule("PAIR.timedelta", "TimeDelta's Serialize writes the raw (secs, nanos) fields that its Deserialize hands to TimeDelta::new", floor=1)
+    fn = [n for n in P.fns if n.startswith("time_delta::serde::") and n.endswith("::serialize") and P.has(n)]
+    if len(fn) != 1:
+        raise AnchorLost("TimeDelta serialize: %d candidates" % len(fn))
+    cs = {c for c in callees(P, fn[0]) if c.startswith("time_delta::TimeDelta::")}
+    # reads of the two fields of self
+    m = P.fn(fn[0])["mir"]
+    from rules import _places_of, place_field_steps
+    reads = set()
+    for b in m["blocks"]:
+        if b.get("cleanup"):
+            continue
+        for st in b["s"]:
+            pls = []
+            _places_of(st.get("rv"), pls)
+            for pl in pls:
+                for tys, idx in place_field_steps(P, m, pl):
+                    if tys.lstrip("&") == "time_delta::TimeDelta":
+                        reads.add(idx)
+    chk.expect(not cs and reads == {0, 1}, fn[0].split("::")[-2], "TimeDelta's Serialize goes through %s and reads fields %s (expected: no accessor, both raw fields)" % (sorted(c.split("::")[-1] for c in cs), sorted(reads)), loc=P.loc(fn[0]))
 
 
 def r_noreach(chk, P, tier):
